@@ -139,9 +139,51 @@ def _is_neg_test(t: ast.AST) -> bool:
     return (s.startswith("str(") and "[0]=='-'" in s) or s.endswith("<0")
 
 
+def _inline_branch_helpers(fnode, expr, skip=()):
+    """a nested one-parameter helper of the shape `if T: return A / else: return B` (or `return A if T else B`) used as
+    map(helper, xs) or helper(x) is replaced by the equivalent lambda / conditional expression"""
+    import copy as _copy
+    helpers = {}
+    for n in fnode.body:
+        if isinstance(n, ast.FunctionDef) and len(n.args.args) == 1 and n.name not in skip:
+            body = [b for b in n.body if not (isinstance(b, ast.Expr) and isinstance(b.value, ast.Constant))]
+            e = None
+            if len(body) == 1 and isinstance(body[0], ast.Return) and body[0].value is not None:
+                e = body[0].value
+            elif len(body) == 1 and isinstance(body[0], ast.If) and len(body[0].body) == 1 and len(body[0].orelse) == 1 and \
+                    isinstance(body[0].body[0], ast.Return) and isinstance(body[0].orelse[0], ast.Return):
+                e = ast.IfExp(test=body[0].test, body=body[0].body[0].value, orelse=body[0].orelse[0].value)
+            elif len(body) == 2 and isinstance(body[0], ast.If) and not body[0].orelse and len(body[0].body) == 1 and isinstance(body[0].body[0], ast.Return) and \
+                    isinstance(body[1], ast.Return):
+                e = ast.IfExp(test=body[0].test, body=body[0].body[0].value, orelse=body[1].value)
+            if e is not None:
+                helpers[n.name] = (n.args.args[0].arg, e)
+    if not helpers:
+        return expr
+
+    class T(ast.NodeTransformer):
+        def visit_Call(self, node):
+            self.generic_visit(node)
+            if isinstance(node.func, ast.Name) and node.func.id in helpers and len(node.args) == 1 and not node.keywords:
+                p_, e_ = helpers[node.func.id]
+
+                class S(ast.NodeTransformer):
+                    def visit_Name(self, nm):
+                        return _copy.deepcopy(node.args[0]) if nm.id == p_ and isinstance(nm.ctx, ast.Load) else nm
+                return S().visit(_copy.deepcopy(e_))
+            if isinstance(node.func, ast.Name) and node.func.id == "map" and len(node.args) == 2 and isinstance(node.args[0], ast.Name) and node.args[0].id in helpers:
+                p_, e_ = helpers[node.args[0].id]
+                node.args[0] = ast.Lambda(args=ast.arguments(posonlyargs=[], args=[ast.arg(arg=p_)], kwonlyargs=[], kw_defaults=[], defaults=[]), body=_copy.deepcopy(e_))
+            return node
+    out = T().visit(_copy.deepcopy(expr))
+    ast.fix_missing_locations(out)
+    return out
+
+
 def _clause_row(ctx, f, expr, relation, threshold_kind):
     from ..astutil import expand_ast
     expr = expand_ast(f.node, expr, skip=("false_count", "count_false_var"))
+    expr = _inline_branch_helpers(f.node, expr, skip=("false_count", "count_false_var"))
     env = env_for(f.node)
     # nested helper definitions (count_false_var) are expanded by hand below
     helper_defs = {n.name: n for n in f.node.body if isinstance(n, ast.FunctionDef)}
